@@ -221,3 +221,161 @@ Example C10_nonvacuous_cq :
   | _ => False
   end.
 Proof. vm_compute. split; reflexivity. Qed.
+
+
+(* ===========================================================================
+   C10 for the runtime over ANY future event set [E : evset]
+   (coq/Runtime/EvSet.v; runtime: coq/Runtime/Generic.v / EvRuntime.v; proofs:
+   coq/Runtime/GenericStep.v), hence for the specification, the calendar queue
+   (every n, t >= 1) and the BinaryHeap backend (every oracle).
+   Two things make "stepped = uninterrupted" a theorem even for a backend whose
+   order among equal timestamps is unspecified: (1) peek_time cannot change the
+   event set -- in the interface it returns no state (the seventh interface
+   fact; both real backends have it since fix: commit f4552a6) -- so a paused
+   runtime holds exactly the event set the uninterrupted run holds at that
+   point; (2) the oracle [orc] is asked with the dispatch number and the
+   candidates, so the two runs put the same question when they dispatch the same
+   event, which is how a deterministic heap behaves: its answer is a function of
+   its push/pop history, and that history is the same in both runs. *)
+From DesVerif Require Import Runtime.Generic Runtime.EvSet Runtime.GenericProps Runtime.GenericPrefix Runtime.GenericStep
+  Runtime.EvRuntime Runtime.Instances Runtime.HeapSet Runtime.HeapRt Runtime.HeapSetProps.
+
+Theorem C10_any_event_set_stepped_log_eq_run_log :
+  forall (E : evset) (orc : N -> eHint E) (P : prog) (S B : N) (pre : list (N * N)) (ops : list sop),
+  forallb is_dispatch ops = true ->
+  exists s1 xs u,
+    ev_exec_sched E orc P (ev_boot E S B LNone pre) ops = (Some s1, xs) /\
+    ev_dispatch_all E orc P s1 = Some u /\
+    ev_dispatch_all E orc P (ev_boot E S B LNone pre) = Some u.
+Proof. exact g_stepped_eq_run. Qed.
+Print Assumptions C10_any_event_set_stepped_log_eq_run_log.
+
+Theorem C10_any_event_set_stepped_block_eq_run_block :
+  forall (E : evset) (orc : N -> eHint E) (sc : script) (sched : list sop),
+  forallb is_dispatch sched = true ->
+  exists o0 o1 u,
+    ev_run_block E orc sc LNone [] = o0 ++ [ev_finish E orc u] /\
+    ev_run_block E orc sc LNone sched = o0 ++ o1 ++ [ev_finish E orc u].
+Proof. exact g_stepped_block. Qed.
+Print Assumptions C10_any_event_set_stepped_block_eq_run_block.
+
+Theorem C10_any_event_set_step_ignores_configured_limit :
+  forall (E : evset) (orc : N -> eHint E) (P : prog) (L' L : lim) (s : ev_rt E),
+  ev_with_limit E orc P L' (ev_set_limit E s L) = option_map (fun s' => ev_set_limit E s' L) (ev_with_limit E orc P L' s).
+Proof. exact g_step_ignores_configured_limit. Qed.
+Print Assumptions C10_any_event_set_step_ignores_configured_limit.
+
+(* every paused state (any program, configured limit, schedule so far, external adds included): the reported
+   values; add_event accepted iff t >= sim_time, a rejected one changes nothing; the remaining run is
+   time-ordered; dispatch_n_events(k) dispatches exactly its next k events (or all), dispatch_events_until(T)
+   exactly those with timestamp <= T *)
+Theorem C10_any_event_set_paused :
+  forall (E : evset) (orc : N -> eHint E) (P : prog) (S B : N) (L : lim) (pre : list (N * N)) (ops : list sop)
+         (s : ev_rt E) (xs : list sout),
+  ev_exec_sched E orc P (ev_boot E S B L pre) ops = (Some s, xs) ->
+  ev_status E s = OStatus (N.of_nat (length (ev_log E s))) (N.of_nat (length (ev_remaining E orc s)))
+                          (last (map snd (ev_log E s)) S) (N.of_nat (length (ev_adds E s))) /\
+  Permutation (accepted (ev_adds E s)) (handled (ev_log E s) ++ ev_remaining E orc s) /\
+  e_clock E (ev_fes E s) = ev_clock E s /\
+  (forall tm l, ev_step E orc P s (SAdd tm l) = (Some (ev_add E false s tm l), OAddRes (ev_clock E s <=? tm))) /\
+  (forall tm l, tm < ev_clock E s -> ev_fes E (ev_add E false s tm l) = ev_fes E s) /\
+  StronglySorted N.le (map snd (ev_rest E orc P s)) /\
+  (exists u, ev_dispatch_all E orc P (ev_set_limit E s LNone) = Some u /\ ev_log E u = ev_log E s ++ ev_rest E orc P s) /\
+  (forall k, exists s', ev_dispatch_n_events E orc P s k = Some s' /\
+                        ev_log E s' = ev_log E s ++ firstn (N.to_nat k) (ev_rest E orc P s) /\
+                        ev_itr E s' = ev_itr E s + N.min k (N.of_nat (length (ev_rest E orc P s)))) /\
+  (forall T, exists s', ev_dispatch_events_until E orc P s T = Some s' /\
+                        ev_log E s' = ev_log E s ++ filter (fun e => snd e <=? T) (ev_rest E orc P s)).
+Proof. exact g_paused. Qed.
+Print Assumptions C10_any_event_set_paused.
+
+(* ---- instances ---- *)
+Theorem C10_stepped_log_eq_run_log_over_spec_event_set :
+  forall (P : prog) (S B : N) (pre : list (N * N)) (ops : list sop),
+  forallb is_dispatch ops = true ->
+  exists s1 xs u,
+    ev_exec_sched spec_evset (fun _ => tt) P (ev_boot spec_evset S B LNone pre) ops = (Some s1, xs) /\
+    ev_dispatch_all spec_evset (fun _ => tt) P s1 = Some u /\
+    ev_dispatch_all spec_evset (fun _ => tt) P (ev_boot spec_evset S B LNone pre) = Some u.
+Proof. exact (g_stepped_eq_run spec_evset (fun _ => tt)). Qed.
+Print Assumptions C10_stepped_log_eq_run_log_over_spec_event_set.
+
+Theorem C10_stepped_log_eq_run_log_over_calendar_queue_event_set :
+  forall (n t : N) (Hn : n <> 0) (Ht : t <> 0) (P : prog) (S B : N) (pre : list (N * N)) (ops : list sop),
+  let E := cq_evset n t Hn Ht in
+  forallb is_dispatch ops = true ->
+  exists s1 xs u,
+    ev_exec_sched E (fun _ => tt) P (ev_boot E S B LNone pre) ops = (Some s1, xs) /\
+    ev_dispatch_all E (fun _ => tt) P s1 = Some u /\
+    ev_dispatch_all E (fun _ => tt) P (ev_boot E S B LNone pre) = Some u.
+Proof. intros n t Hn Ht. exact (g_stepped_eq_run (cq_evset n t Hn Ht) (fun _ => tt)). Qed.
+Print Assumptions C10_stepped_log_eq_run_log_over_calendar_queue_event_set.
+
+(* the BinaryHeap backend, EVERY oracle (functions of coq/Runtime/HeapRt.v) *)
+Theorem C10_stepped_log_eq_run_log_heap :
+  forall (orc : N -> hint) (P : prog) (S B : N) (pre : list (N * N)) (ops : list sop),
+  forallb is_dispatch ops = true ->
+  exists s1 xs u,
+    hexec_sched orc P (hboot S B LNone pre) ops = (Some s1, xs) /\
+    hdispatch_all orc P s1 = Some u /\
+    hdispatch_all orc P (hboot S B LNone pre) = Some u.
+Proof. exact (g_stepped_eq_run heap_evset). Qed.
+Print Assumptions C10_stepped_log_eq_run_log_heap.
+
+Theorem C10_stepped_block_eq_run_block_heap :
+  forall (orc : N -> hint) (sc : script) (sched : list sop),
+  forallb is_dispatch sched = true ->
+  exists o0 o1 u,
+    fst (hrun_block orc sc LNone []) = o0 ++ [gfinish hs hint hp_fetch hp_len orc u] /\
+    fst (hrun_block orc sc LNone sched) = o0 ++ o1 ++ [gfinish hs hint hp_fetch hp_len orc u].
+Proof. exact (g_stepped_block heap_evset). Qed.
+Print Assumptions C10_stepped_block_eq_run_block_heap.
+
+Theorem C10_step_ignores_configured_limit_heap :
+  forall (orc : N -> hint) (P : prog) (L' L : lim) (s : hrt),
+  gwith_limit hs hint hp_add hp_peek hp_fetch hp_len orc P L' (gset_limit hs s L) =
+  option_map (fun s' => gset_limit hs s' L) (gwith_limit hs hint hp_add hp_peek hp_fetch hp_len orc P L' s).
+Proof. exact (g_step_ignores_configured_limit heap_evset). Qed.
+Print Assumptions C10_step_ignores_configured_limit_heap.
+
+(* C10_n_step_exact, C10_until_step_exact, C10_paused_state, C10_paused_add_ok_iff for the heap backend, in one statement *)
+Theorem C10_paused_heap :
+  forall (orc : N -> hint) (P : prog) (S B : N) (L : lim) (pre : list (N * N)) (ops : list sop) (s : hrt) (xs : list sout),
+  hexec_sched orc P (hboot S B L pre) ops = (Some s, xs) ->
+  let rem := gremaining hs hint hp_fetch hp_len orc s in
+  let rest := grest heap_evset orc P s in
+  gstatus hs hp_len s = OStatus (N.of_nat (length (glog hs s))) (N.of_nat (length rem))
+                                (last (map snd (glog hs s)) S) (N.of_nat (length (gadds hs s))) /\
+  Permutation (accepted (gadds hs s)) (handled (glog hs s) ++ rem) /\
+  hlast (gfes hs s) = gclock hs s /\
+  (forall tm l, gstep hs hint hp_add hp_peek hp_fetch hp_len orc P s (SAdd tm l) =
+                (Some (gadd_event hs hp_add false s tm l), OAddRes (gclock hs s <=? tm))) /\
+  (forall tm l, tm < gclock hs s -> gfes hs (gadd_event hs hp_add false s tm l) = gfes hs s) /\
+  StronglySorted N.le (map snd rest) /\
+  (exists u, hdispatch_all orc P (gset_limit hs s LNone) = Some u /\ glog hs u = glog hs s ++ rest) /\
+  (forall k, exists s', gdispatch_n_events hs hint hp_add hp_peek hp_fetch hp_len orc P s k = Some s' /\
+                        glog hs s' = glog hs s ++ firstn (N.to_nat k) rest /\
+                        gitr hs s' = gitr hs s + N.min k (N.of_nat (length rest))) /\
+  (forall T, exists s', gdispatch_events_until hs hint hp_add hp_peek hp_fetch hp_len orc P s T = Some s' /\
+                        glog hs s' = glog hs s ++ filter (fun e => snd e <=? T) rest).
+Proof. exact (g_paused heap_evset). Qed.
+Print Assumptions C10_paused_heap.
+
+(* Non-vacuity over the heap backend, oracle "last candidate": three entries at time 7 in the heap; cutting after
+   one event and again inside the tie group gives the order of the uninterrupted run (3, 2, 1 -- not the
+   specification's 1, 2, 3), and an event added while paused at 7 goes first. *)
+Example C10_nonvacuous_heap :
+  let orc := fun (_ : N) (cs : list (N * N)) => pred (length cs) in
+  let pre := [(7, 1); (7, 2); (7, 3); (9, 4)] in
+  option_map (glog hs) (hdispatch_all orc [] (hboot 0 0 LNone pre)) = Some [(3, 7); (2, 7); (1, 7); (4, 9)] /\
+  match hexec_sched orc [] (hboot 0 0 LNone pre) [SN 1; SUntil 7] with
+  | (Some s1, xs) => xs = [OStatus 1 3 7 4; OStatus 3 1 7 4] /\
+                     option_map (glog hs) (hdispatch_all orc [] s1) = Some [(3, 7); (2, 7); (1, 7); (4, 9)]
+  | _ => False
+  end /\
+  match hexec_sched orc [] (hboot 0 0 LNone pre) [SN 1; SAdd 7 5; SAdd 6 5] with
+  | (Some s1, xs) => xs = [OStatus 1 3 7 4; OAddRes true; OAddRes false] /\
+                     option_map (glog hs) (hdispatch_all orc [] s1) = Some [(3, 7); (5, 7); (2, 7); (1, 7); (4, 9)]
+  | _ => False
+  end.
+Proof. vm_compute. repeat split. Qed.
